@@ -277,19 +277,20 @@ func (m *ScaledNumberType) GetValue() float64 {
 func NewScaledNumberType(value float64) *ScaledNumberType {
 	m := &ScaledNumberType{}
 
+	// We limit this to 4 digits for now
+	//
+	// Take the digits from the decimal text of the value, correctly rounded to 4
+	// decimals: the float product value * 10^n is one unit low for many decimals
+	// (0.29 * 100 = 28.999...) and loses precision above 2^53, and the shortest
+	// text of a large value can have less than the 4 decimals we keep
+	temp := strings.TrimRight(strconv.FormatFloat(value, 'f', 4, 64), "0")
 	numberOfDecimals := 0
-	temp := strconv.FormatFloat(value, 'f', -1, 64)
-	index := strings.IndexByte(temp, '.')
-	if index > -1 {
+	if index := strings.IndexByte(temp, '.'); index > -1 {
 		numberOfDecimals = len(temp) - index - 1
 	}
 
-	// We limit this to 4 digits for now
-	if numberOfDecimals > 4 {
-		numberOfDecimals = 4
-	}
-
-	numberValue := NumberType(math.Trunc(value * math.Pow(10, float64(numberOfDecimals))))
+	parsedNumber, _ := strconv.ParseInt(strings.Replace(temp, ".", "", 1), 10, 64)
+	numberValue := NumberType(parsedNumber)
 	m.Number = &numberValue
 
 	var scaleValue ScaleType
